@@ -1514,7 +1514,7 @@ func c11GenChange(rt *rapid.T, p *c11Pipe) (c11PStep, error) {
 	}
 	for _, u := range uris {
 		a := c11Auth{URI: u, Key: c11LastComp(u)}
-		if rapid.IntRange(0, 24).Draw(rt, "forge") == 0 {
+		if rapid.IntRange(0, 49).Draw(rt, "forge") == 0 {
 			a.Key = rapid.SampledFrom(append([]string{"E"}, c11Keys...)).Draw(rt, "forger")
 		}
 		st.Auth = append(st.Auth, a)
@@ -1541,7 +1541,7 @@ func c11RunPipelineCase(cs *hx.Case, fs *hx.FindingSet) {
 	r1 := c11DrawRule(rt, "acc", "acc0")
 	r2 := c11DrawRule(rt, "X2", "x20")
 	exec(c11PStep{Op: "setup", Rule: &r1, Rule2: &r2})
-	n := rapid.IntRange(3, 12).Draw(rt, "steps")
+	n := rapid.IntRange(4, 16).Draw(rt, "steps")
 	for i := 0; i < n; i++ {
 		m := p.nm.LM.M
 		switch k := rapid.IntRange(0, 99).Draw(rt, "op"); {
@@ -1649,7 +1649,12 @@ func TestC11(t *testing.T) {
 	if part == "1" {
 		return
 	}
-	c.Check(t, "acl-pipeline", hx.N(150, 1000), func(cs *hx.Case) {
+	if t.Failed() {
+		// rapid refuses a *testing.T that has already failed (an unlisted witness was reported above)
+		t.Logf("acl-pipeline not run: a violation was already reported")
+		return
+	}
+	c.Check(t, "acl-pipeline", hx.N(1000, 15000), func(cs *hx.Case) {
 		c11RunPipelineCase(cs, fs)
 	})
 }
